@@ -279,7 +279,210 @@ pub fn run_case(ctx: &Ctx, c: &Case) -> Outcome {
     Outcome { viols, log_len, kind, accepted_somewhere }
 }
 
+// ---------------------------------------------------------------------------------------------
+// online duplicates: an outsider on the path copies every control datagram (handshake, rotation,
+// node information, keepalive) and delivers the copy again a little later - right behind the
+// original, after the receiver's next housekeeping, or one / two seconds later, i.e. still inside
+// the replay window of C03 - while the nodes' housekeeping ticks are not aligned.
+// ---------------------------------------------------------------------------------------------
+
+#[derive(Clone, Debug, Serialize, Deserialize)]
+pub struct OnlineCase {
+    pub nodes: u8,
+    pub cipher: u8,
+    /// when the copy is delivered: 0 right behind the original, 1 after the receiver's next housekeeping,
+    /// 2 at the start of the next second, 3 in the next second after all housekeeping, 4 at the start of the second after
+    pub when: u8,
+    /// housekeeping order within a second reversed (highest node first)
+    pub reversed: bool,
+    /// true: what a node sends during housekeeping is delivered before the next node's housekeeping runs
+    pub unaligned: bool,
+    pub seconds: u32,
+    /// 0 every control datagram, 1 sealed ones only, 2 handshake messages only
+    pub which: u8,
+    /// every k-th eligible datagram is copied (1 = all)
+    pub every: u8,
+}
+
+pub fn run_online(ctx: &Ctx, c: &OnlineCase) -> Vec<Viol> {
+    ctx.eval();
+    let cj = || json!({"kind": "online-dup", "case": c});
+    let nodes = c.nodes.clamp(2, 3) as usize;
+    let mut viols = vec![];
+    let mut sim: NetSim<Packet> = NetSim::new();
+    for i in 0..nodes {
+        let mut cfg = base_config();
+        cfg.mode = Mode::Router;
+        cfg.auto_claim = false;
+        cfg.claims = vec![claim_of(i)];
+        cfg.crypto.algorithms = vec![["aes128", "aes256", "chacha20"][c.cipher as usize % 3].to_string()];
+        sim.add_node(&cfg, false);
+    }
+    // copies waiting: (trigger, target node, claimed source, bytes); trigger 1 = after housekeeping of target,
+    // 2 / 3 / 4 as in `when`, with the second in which they become due
+    let mut waiting: Vec<(u8, i64, usize, SocketAddr, Vec<u8>)> = vec![];
+    let mut count = 0u64;
+    let mut copies = 0u64;
+    // delivers everything in flight; eligible datagrams are copied according to the case
+    fn pump(sim: &mut NetSim<Packet>, c: &OnlineCase, waiting: &mut Vec<(u8, i64, usize, SocketAddr, Vec<u8>)>, count: &mut u64, copies: &mut u64) {
+        let mut guard = 0;
+        while let Some(d) = sim.inflight.pop_front() {
+            guard += 1;
+            if guard > 5000 {
+                sim.storm = true;
+                sim.inflight.clear();
+                return;
+            }
+            let hs = d.data.first() == Some(&0xff);
+            let eligible = match c.which % 3 {
+                0 => true,
+                1 => !hs,
+                _ => hs,
+            };
+            let target = sim.index.get(&d.dst).copied();
+            sim.deliver(d.clone());
+            if let (true, Some(t)) = (eligible, target) {
+                *count += 1;
+                if *count % c.every.max(1) as u64 == 0 {
+                    *copies += 1;
+                    match c.when % 5 {
+                        0 => {
+                            sim.deliver_to(t, d.src, d.data.clone());
+                        }
+                        1 => waiting.push((1, sim.now, t, d.src, d.data.clone())),
+                        2 => waiting.push((2, sim.now + 1, t, d.src, d.data.clone())),
+                        3 => waiting.push((3, sim.now + 1, t, d.src, d.data.clone())),
+                        _ => waiting.push((4, sim.now + 2, t, d.src, d.data.clone())),
+                    }
+                }
+            }
+        }
+    }
+    fn release(sim: &mut NetSim<Packet>, waiting: &mut Vec<(u8, i64, usize, SocketAddr, Vec<u8>)>, pred: &dyn Fn(&(u8, i64, usize, SocketAddr, Vec<u8>)) -> bool) {
+        let mut keep = vec![];
+        let all: Vec<_> = std::mem::take(waiting);
+        for w in all {
+            if pred(&w) {
+                sim.deliver_to(w.2, w.3, w.4.clone());
+            } else {
+                keep.push(w);
+            }
+        }
+        *waiting = keep;
+    }
+    for i in 0..nodes {
+        for j in (i + 1)..nodes {
+            let a = sim.addr(j);
+            sim.connect(i, a);
+        }
+    }
+    pump(&mut sim, c, &mut waiting, &mut count, &mut copies);
+    let order: Vec<usize> = if c.reversed { (0..nodes).rev().collect() } else { (0..nodes).collect() };
+    let mut lost = 0u32;
+    let mut first_loss: Option<String> = None;
+    let mut disconnected_at: Option<u32> = None;
+    for s in 0..c.seconds {
+        sim.now += 1;
+        vpncloud::util::MockTimeSource::set_time(sim.now);
+        let now = sim.now;
+        release(&mut sim, &mut waiting, &|w| (w.0 == 2 || w.0 == 4) && w.1 <= now);
+        pump(&mut sim, c, &mut waiting, &mut count, &mut copies);
+        for &i in &order {
+            sim.housekeep(i);
+            if c.unaligned {
+                pump(&mut sim, c, &mut waiting, &mut count, &mut copies);
+            }
+            release(&mut sim, &mut waiting, &|w| w.0 == 1 && w.2 == i);
+            if c.unaligned {
+                pump(&mut sim, c, &mut waiting, &mut count, &mut copies);
+            }
+        }
+        pump(&mut sim, c, &mut waiting, &mut count, &mut copies);
+        release(&mut sim, &mut waiting, &|w| w.0 == 3 && w.1 <= now);
+        pump(&mut sim, c, &mut waiting, &mut count, &mut copies);
+        if !sim.panics.is_empty() || sim.storm {
+            break;
+        }
+        if s < 5 {
+            continue;
+        }
+        if !sim.all_connected() && disconnected_at.is_none() {
+            disconnected_at = Some(s);
+        }
+        for n in 0..nodes {
+            sim.take_iface(n);
+        }
+        for a in 0..nodes {
+            for b in 0..nodes {
+                if a == b {
+                    continue;
+                }
+                let p = pkt(a, b, s);
+                sim.put_payload(a, p.clone());
+                sim.settle(); // payload datagrams are not copied: their in-window duplicate is C03's subject
+                for n in 0..nodes {
+                    let got = sim.take_iface(n);
+                    let ok = if n == b { got == vec![p.clone()] } else { got.is_empty() };
+                    if !ok {
+                        lost += 1;
+                        if first_loss.is_none() {
+                            first_loss = Some(format!("second {}: packet {}->{}: node {} wrote {} packets to its interface", s, a, b, n, got.len()));
+                        }
+                    }
+                }
+            }
+        }
+    }
+    let what = format!("copies of control datagrams delivered again (when={}, unaligned={}, reversed={}, which={}, every={}; {} copies)", c.when % 5, c.unaligned, c.reversed, c.which % 3, c.every, copies);
+    if let Some((n, p, ctxt)) = sim.panics.first() {
+        viols.push(Viol::new("online-duplicate/effect=panic", format!("{}: node {} panicked: {} at {} ({})", what, n, p.msg, p.loc, ctxt), cj()));
+    } else if sim.storm {
+        ctx.class("online:inconclusive-datagram-storm");
+    } else if lost > 0 {
+        viols.push(Viol::new("online-duplicate/effect=payload-loss", format!("{}: {} probe deliveries wrong; first: {}", what, lost, first_loss.unwrap_or_default()), cj()));
+    } else if let Some(s) = disconnected_at {
+        viols.push(Viol::new("online-duplicate/effect=connection-lost", format!("{}: a pair was disconnected at second {}", what, s), cj()));
+    }
+    if copies > 0 {
+        ctx.nontrivial(&format!("{:?}", c));
+    }
+    ctx.class(&format!("online:when={}", c.when % 5));
+    viols
+}
+
 pub fn run(ctx: &Ctx) {
+    // online duplicates (2- and 3-node meshes, every combination of the case parameters)
+    {
+        let mut cases = vec![];
+        let secs: u32 = ctx.tier.pick(500, 1500);
+        for nodes in [2u8, 3] {
+            for when in 0..5u8 {
+                for reversed in [false, true] {
+                    for unaligned in [false, true] {
+                        for which in 0..3u8 {
+                            for every in [1u8, 2, 3] {
+                                if nodes == 3 && (every != 1 || ctx.quick() && which == 2) {
+                                    continue;
+                                }
+                                cases.push(OnlineCase { nodes, cipher: (when + which + every) % 3, when, reversed, unaligned, seconds: secs, which, every });
+                            }
+                        }
+                    }
+                }
+            }
+        }
+        let total = cases.len() as u64;
+        ctx.par_items(&cases, |_, c| {
+            let v = run_online(ctx, c);
+            ctx.report(v);
+        });
+        ctx.sample("online-duplicate", || serde_json::to_value(&cases[7]).unwrap());
+        ctx.subspace(
+            &format!("online duplicates: copy of every (k-th) control datagram delivered again at 5 points inside the replay window x tick order x aligned/unaligned housekeeping x datagram class, 2-3 nodes, {} s each", secs),
+            total,
+            true,
+        );
+    }
     ctx.rule(
         "case = (mesh size 2-3 router-mode real nodes with claims, cipher, index of a datagram captured during \
          establishment + 130 s of operation with traffic, time offset from {0,1,2,5,30,59,61,90,119,121,300,600} s, \
@@ -383,6 +586,15 @@ pub fn run(ctx: &Ctx) {
 }
 
 pub fn replay(ctx: &Ctx, case: &Value) {
+    if case["kind"].as_str() == Some("online-dup") {
+        if let Ok(c) = serde_json::from_value::<OnlineCase>(case["case"].clone()) {
+            for _ in 0..3 {
+                let v = run_online(ctx, &c);
+                ctx.report(v);
+            }
+        }
+        return;
+    }
     if let Ok(c) = serde_json::from_value::<Case>(case["case"].clone()) {
         for _ in 0..3 {
             let o = run_case(ctx, &c);
